@@ -80,7 +80,11 @@ static int mem_tok(struct instr *instr_buffer, char *mem, int opd_pos) {
       instr_buffer->mem_offset = process_neg_disp(instr_buffer->mem_offset);
   } else if (index_const != NA) {
     instr_buffer->mem_value = true;
-    instr_buffer->mem_const = strtoul(mem + index_const, NULL, base);
+    char *end = NULL;
+    instr_buffer->mem_const = strtoul(mem + index_const, &end, base);
+    // an absolute address is a number and nothing else: a displacement in
+    // front of the registers ("[0x10+rax]") is not supported
+    FAIL_IF_MSG(*end != ']', "invalid memory syntax\n");
     // if displacement is negative represent in 2's complement
     if (neg)
       instr_buffer->mem_const = ~instr_buffer->mem_const + 1;
